@@ -31,3 +31,13 @@ uint32_t x__ZN4Poco3Net12StreamSocket9sendBytesEPKvii(struct S_class_2ePoco_3a_3
   wire_n += n; return n;
 }
 static uint32_t vf_errno_b; uint32_t *x___errno_location(void) { return &vf_errno_b; }
+/* std::string::reserve (called once, on the empty batch buffer, as in the Session constructor): moves the string to a heap
+   buffer of the model's constant capacity VF_MAXCOPY+1; longer contents are outside every harness's bounds (asserted by
+   the string model's length checks) */
+void x__ZNSt7__cxx1112basic_stringIcSt11char_traitsIcESaIcEE7reserveEm(vstr *s, uint64_t n)
+{
+  if (!VS_LOCAL(s)) return;
+  uint8_t *np = vs_alloc(1); uint64_t old = VS_N(s);
+  if (old) vf_copy(np, VS_P(s), old);
+  np[old] = 0; VS_P(s) = np; VS_CAP(s) = VF_MAXCOPY;
+}
